@@ -221,6 +221,7 @@ class Ctx:
         self.parts = []  # per sub-space summaries
         self.limit = 5.0 if self.quick else 20.0
         self.recheck_n = 40
+        self.divergences = []
 
     # ------------------------------------------------------------------ exploration
     def explore(self, name, factory, fn, setup=None, jobs=None, limit=None, recheck=True):
@@ -246,7 +247,10 @@ class Ctx:
                 raise HarnessError(f"recheck worker crashed in {name}:\n{payload}")
             for k, v in payload.digests.items():
                 if part.digests.get(k) != v:
-                    raise HarnessError(f"{name}: case #{k} gave different observations in a fresh process")
+                    # remembered, not raised: violations found in this run are still reported (exit 1); if there are none
+                    # the run ends as a harness error (exit 2), never as "held"
+                    self.divergences.append(f"{name}: case #{k} gave different observations in a fresh process")
+                    break
         self.parts.append({"space": name, "cases": part.evaluations, "states": len(part.states) + part.bulk_states,
                            "transitions": part.transitions, "nontrivial": len(part.nontrivial) + part.bulk_nontrivial,
                            "outcomes": len(part.outcomes), "timeouts": part.timeouts,
@@ -336,7 +340,12 @@ class Ctx:
         for ln in lines:
             print(ln)
         sys.stdout.flush()
-        return 1 if violations else 0
+        if violations:
+            return 1
+        if self.divergences:
+            sys.stderr.write("HARNESS-ERROR: " + "; ".join(self.divergences) + "\n")
+            return 2
+        return 0
 
 
 def short(x, n=160):
